@@ -237,6 +237,14 @@ class CacheFromEnvelope:
         except Exception:
             raise GeneratorError("The provided envelope/dependency envelope is not a valid envelope!")
 
+        if (
+            isinstance(envelope, cbor2.CBORTag)
+            and not isinstance(envelope.value, dict)
+            and hasattr(envelope.value, "items")
+        ):
+            # Newer cbor2 releases decode the content of a tag into immutable containers
+            envelope = cbor2.CBORTag(envelope.tag, dict(envelope.value))
+
         if isinstance(envelope, cbor2.CBORTag) and isinstance(envelope.value, dict):
             integrated = [k for k in envelope.value.keys() if isinstance(k, str)]
         else:
